@@ -201,10 +201,10 @@ M("C11", "heating-unguarded", "automation/heater.py",
 
 # --------------------------------------------------------------------------- C12
 M("C12", "async-set-dedup", "automation/async_facade.py", "        actual_devices = list(\n            dict.fromkeys(\n                [", "        actual_devices = list(\n            set(\n                [", rule="R1")
-M("C12", "blower-class-mismatch", "automation/async_facade.py", "            == GeckoConstants.DEVICE_CLASS_BLOWER", "            == GeckoConstants.DEVICE_CLASS_LIGHT", rule="R3")
+M("C12", "blower-class-mismatch", "automation/async_facade.py", "            == GeckoConstants.DEVICE_CLASS_BLOWER", "            == GeckoConstants.DEVICE_CLASS_LIGHT", rule="R1")
 M("C12", "light-state-key", "const.py", "\"LI\": (\"Lights\", KEYPAD_LIGHT, KEY_USER_DEMAND_LIGHT, DEVICE_CLASS_LIGHT),", "\"LI\": (\"Lights\", KEYPAD_LIGHT, \"LI\", DEVICE_CLASS_LIGHT),", rule="R4")
 M("C12", "duplicate-key", "const.py", "SENSORS = [(\"Smart Winter Mode:Risk\", KEY_SWM_RISK)]", "SENSORS = [(\"Smart Winter Mode:Risk\", KEY_SWM_RISK), (\"Heat\", KEY_RH_WATER_TEMP)]", rule="R5")
-M("C12", "na-filter-dropped", "automation/async_facade.py", "tag: val for (tag, val) in all_output_connections.items() if val != \"NA\"", "tag: val for (tag, val) in all_output_connections.items() if val", rule="R1")
+M("C12", "na-filter-dropped", "automation/async_facade.py", "tag: val for (tag, val) in all_output_connections.items() if val != \"NA\"", "tag: val for (tag, val) in all_output_connections.items() if val", expect="silent")  # no device key is a prefix of "NA": same inventory
 
 # --------------------------------------------------------------------------- C13
 M("C13", "no-short-circuit", "automation/switch.py",
